@@ -273,11 +273,13 @@ def linkSizeIn (mode : Nat) (nlen : Nat) (l : Lnk) : Int :=
 
 namespace Basic
 
-/-- `computeEstimatedSizeAndTotalLinks` → (estimatedSize, totalLinks) -/
+/-- `computeEstimatedSizeAndTotalLinks` → (estimatedSize, totalLinks).  In block mode the Data-field part is
+`nodeDataFieldSize(d.node)`: the size of the Data the node actually holds (written at creation from
+`nodeStat`), not what `SetStat` recorded since. -/
 def compute (g : Globals) (b : Basic) : Int × Int :=
   let mode := b.s.effMode g
   if mode = 1 then
-    ((dataFieldSize b.s.stat : Nat) + (b.links.map fun e => (linkSerializedSize (nameLen e.1) e.2.clen e.2.size : Int)).sum,
+    ((dataFieldSize b.nodeStat : Nat) + (b.links.map fun e => (linkSerializedSize (nameLen e.1) e.2.clen e.2.size : Int)).sum,
       b.links.length)
   else if mode = 0 then
     ((b.links.map fun e => ((nameLen e.1 + e.2.clen : Nat) : Int)).sum, b.links.length)
